@@ -5,7 +5,9 @@
    BugH13=FALSE (repaired verifySessionV2): code-shaped ApproveCode implies the listed property everywhere;
    BugH13=TRUE (code as it is): it does so except for the H13 class.
 2. Record validation: generated abstract requests (all-good and every single fact flipped for every
-   operation and authorisation kind, plus random combinations) are MATERIALISED as real signed containers,
+   operation and authorisation kind; EVERY attribute list of length 0..3 over user / permitted-system / meta /
+   forbidden-system kinds - order matters - under both MetaEnabled settings for both creation flows; plus random
+   combinations) are MATERIALISED as real signed containers,
    eACL tables, V1/V2 session tokens (with delegation chains), RFC6979 witnesses and sent as real notary
    requests (built by the real client of a non-IR party) through the real listener -> preparator -> parser ->
    container processor -> morph client. approve = the fake RPC node saw this node's co-signature on that main
